@@ -18,6 +18,10 @@ CONSTANTS
   MaxNow = 4
   AllowClose = TRUE
   AllowCtx = TRUE
+  MaxCalls = 1
+  WFault = FALSE
+  TimeoutCarriesOver = FALSE
+  WriteErrKeepsEntry = FALSE
   MaxTry = 2
 PROPERTIES EventuallyReturns CloseReturns
 CHECK_DEADLOCK FALSE
